@@ -187,10 +187,17 @@ func (f *Frame) pureExtern(st *State, fn *ssa.Function, args []Val) Val {
 		ts = append(ts, t)
 	}
 	if sig.Recv() != nil {
-		scalar = false
+		// methods of a named basic type (json.Number is a string) are functions of the receiver value
+		if _, isBasic := sig.Recv().Type().Underlying().(*types.Basic); !isBasic {
+			scalar = false
+		}
 	}
 	if scalar && len(ts) > 0 {
-		for i := 0; i < len(args) && i < sig.Params().Len(); i++ {
+		off := 0
+		if sig.Recv() != nil {
+			off = 1
+		}
+		for i := 0; i+off < len(args) && i < sig.Params().Len(); i++ {
 			switch sig.Params().At(i).Type().Underlying().(type) {
 			case *types.Basic:
 			default:
@@ -242,6 +249,7 @@ func (f *Frame) pureExtern(st *State, fn *ssa.Function, args []Val) Val {
 		for i := 0; i < res.Len(); i++ {
 			rt := res.At(i).Type()
 			out = append(out, f.ctx.uf("ext!"+name+"!"+itoa(i), f.sortOf(rt), ts...))
+			f.ctx.eng.extSorts["ext!"+name+"!"+itoa(i)] = f.sortOf(rt)
 		}
 		if len(out) == 1 {
 			return out[0]
